@@ -1,17 +1,33 @@
 // C06 correspondence harness: Dune::VariableSizeCommunicator (forward/backward, fixed-size and variable-size data
-// handles, arbitrary message buffer size, every constructor) against the Lean model, with an independent delivery
-// oracle and a send/receive balance oracle.
+// handles, arbitrary message buffer size, every constructor, copy construction and assignment in arbitrary object
+// histories, both compile-time configurations of the default buffer size) against the Lean model, with an independent
+// delivery oracle and a send/receive balance oracle.
 //
 // op line (describes the whole distributed case, every rank parses all of it):
-//   c06 P=<np> B=<buffer items> mode=<f|v> f=<items per index, fixed mode> ty=<l|p|c|t|v|n> dirs=<letters> [ctor=<m|M|i|I|c|a>] : seg;seg;...
-//   dirs   one letter per communicate call on the same communicator object: f forward, b backward with a handle of the
-//          case's mode; F forward, B backward with a handle of the *other* mode (fixed <-> variable)
+//   c06 P=<np> B=<buffer items> mode=<f|v> f=<items per index, fixed mode> ty=<letter> dirs=<letters> [ctor=<letter|program>] : seg;seg;...
+//   B      the buffer size the case is about: no index has more items, and every object a call is made on is supposed
+//          to be configured with a buffer of at least B items
+//   dirs   one letter per communicate call: f forward, b backward with a handle of the case's mode; F forward,
+//          B backward with a handle of the *other* mode (fixed <-> variable)
 //   ty     item type: l long, p POD struct (generic MPITraits), c std::pair<char,double> (padding between the members),
 //          t std::pair<double,char> (padding behind the members), v FieldVector<double,3>,
-//          n std::pair<int,std::pair<short,double>>  (the MPITraits specialisations of mpitraits.hh)
-//   ctor   how the communicator object is made: m (comm,map,B)   M (comm,map) default buffer (needs B=32768)
-//          i (Interface,B)   I (Interface) default buffer   c copy-constructed, original destroyed   a copy-assigned over
-//          a communicator with another map and buffer size (after a self-assignment), original destroyed.  Default m.
+//          n std::pair<int,std::pair<short,double>>, g h k q bigunsignedint<58|40|100|64>, d double, e long double,
+//          w unsigned long, z x y std::complex<double|float|long double>, a b s r i u f FieldVector of
+//          char/unsigned char (5), short/unsigned short (3), int/unsigned/float (2)   (the specialisations of mpitraits.hh)
+//   ctor   how the objects are made.  One letter (as in round two): m (comm,map,B)   M (comm,map) default buffer
+//          i (Interface,B)   I (Interface) default buffer   c copy-constructed, original destroyed   a copy-assigned
+//          over a communicator with another map and a bigger buffer (after a self-assignment), original destroyed.
+//          Or an object history: statements joined by '.', objects live in slots 0..9:
+//            K<n>           (first statement only) the case runs with the class compiled with
+//                           DUNE_PARALLEL_MAX_COMMUNICATION_BUFFER_SIZE=<n> (the other set of default constructors)
+//            N<s><k><m>[b]  slot s = new object, constructor k in m|i (with buffer size b) M|I (default buffer size),
+//                           interface map m: r the case's map, d a decoy (self interface 0 -> 0 only)
+//            C<s><t>        slot s = copy-constructed from slot t        A<s><t>  slot s = slot t (s==t: self-assignment)
+//            D<s>           slot s destroyed
+//            X<s>           the next call of `dirs` is made on slot s (needs the case's map and a buffer >= B there)
+//            U<s>           slot s is probed: forward and backward with a one-item fixed-size handle, judged by the oracle only
+//          calls of `dirs` not placed by an X statement are made on slot 0 after the history; then all objects are
+//          destroyed in slot order.  Default ctor=m.
 //   E p q [i1,i2,..] [j1,j2,..]   rank p's InterfaceMap[q].first  gets i1,i2,.. appended,
 //                                  rank q's InterfaceMap[p].second gets j1,j2,.. appended (same length); both ranks get a map
 //                                  entry for each other (so the maps stay symmetric whatever segments are removed)
@@ -19,14 +35,16 @@
 //   F p n                         fixed-size handle of rank p: n items per index (default: the header's f)
 // item j of local index i of rank p has the value ((p+1)*4096+i)*65536+j, so every item names its origin.
 //
-// impl (per rank, per communicate call, calls separated by " | "): for every neighbour q in map order the scatter
-// calls that carried data from q, in call order:  q:(idx:[items],idx:[items],..) ; scatter calls with count 0 are not
-// part of the canonical form (the code is free to skip zero-size indices or to call scatter(…,0)).
+// impl (per rank, per communicate call of `dirs`, calls separated by " | "): for every neighbour q in map order the
+// scatter calls that carried data from q, in call order:  q:(idx:[items],idx:[items],..) ; scatter calls with count 0 are
+// not part of the canonical form (the code is free to skip zero-size indices or to call scatter(…,0)).
 // oracle (independent of the model, computed from the op line only): the k-th receive index of this rank for q gets
 // exactly the items of the k-th send index of q for this rank; every send index is gathered exactly once; the
 // counts passed to scatter are the numbers of items; when the call has returned on all ranks no posted receive is left
 // without a message and no message without a receive (point-to-point operations started by the call are counted through
-// the MPI profiling interface); returning at all is checked by the per-case alarm().
+// the MPI profiling interface); returning at all is checked by the per-case alarm().  Which map and buffer size an
+// object is supposed to have after a history is computed here by value semantics (a copy / an assignment takes over the
+// map and the buffer size of its source).
 #include <config.h>
 
 #include <mpi.h>
@@ -40,14 +58,28 @@
 #include <set>
 #include <sstream>
 
-#include <dune/common/fvector.hh>
-#include <dune/common/parallel/interface.hh>
-#include <dune/common/parallel/mpitraits.hh>
+#include "mpi_c06_api.hh"
+
 #include <dune/common/parallel/variablesizecommunicator.hh>
 
 #include "hcommon_mpi.hh"
 
 using namespace dv;
+using c06::CommApi;
+using c06::CtorKind;
+using c06::Family;
+using c06::IMap;
+using c06::Recorder;
+using c06::ScatterCall;
+using c06::itemSource;
+using c06::itemValue;
+
+C06_DEFINE_COMMUNICATE(C06_ALL_TYPES)
+
+static const Family& mainFamily() {
+  static const Family f = {32768, c06::allTypeLetters, &c06::makeComm<Dune::VariableSizeCommunicator<>>};
+  return f;
+}
 
 static int g_rank = 0, g_size = 1;
 
@@ -80,19 +112,39 @@ extern "C" int MPI_Irecv(void* buf, int count, MPI_Datatype dt, int source, int 
 // ---------------------------------------------------------------------------------------------------------------
 // the distributed case
 // ---------------------------------------------------------------------------------------------------------------
+// an interface map on every rank: first[p][q] / second[p][q] are the two index lists of rank p's entry for q
+struct View {
+  std::vector<std::map<int, std::vector<long>>> first, second;
+  std::vector<std::set<int>> present;
+  void resize(int P) { first.resize(P); second.resize(P); present.resize(P); }
+};
+
+struct Stmt {
+  char op = 0;
+  int s = -1, t = -1;
+  char kind = 'm', map = 'r';
+  long b = 0;
+};
+
+struct SlotCfg {  // what an object is supposed to be configured with (value semantics)
+  bool alive = false;
+  long B = 0;
+  char map = 'r';
+};
+
 struct Case {
   int P = 0;
   long B = 0;
   bool fixed = false;
   long f = 1;
   char ty = 'l';
-  char ctor = 'm';
+  std::string ctor = "m";
   std::string dirs;
-  // first[p][q] / second[p][q]: the two index lists of rank p's interface with q; present[p] = keys of p's map
-  std::vector<std::map<int, std::vector<long>>> first, second;
-  std::vector<std::set<int>> present;
+  View real, decoy;
   std::vector<std::vector<long>> sizes;  // variable-size handle of rank p: sizes[p][i]
   std::vector<long> fixedOf;             // fixed-size handle of rank p
+  long K = 0;                            // value of DUNE_PARALLEL_MAX_COMMUNICATION_BUFFER_SIZE, 0: not defined
+  std::vector<Stmt> life;                // the object history, calls not placed explicitly appended as X0
   std::string err;
 
   // is the handle of the call with direction letter d a fixed-size handle?
@@ -102,15 +154,120 @@ struct Case {
     if (fx) return fixedOf[p];
     return (i >= 0 && i < (long)sizes[p].size()) ? sizes[p][i] : 0;
   }
+  long defaultBuffer() const { return K ? K : 32768; }
 };
-
-static long itemValue(int p, long i, long j) { return ((long)(p + 1) * 4096 + i) * 65536 + j; }
-static int itemSource(long v) { return (int)(v / 65536 / 4096) - 1; }
 
 static bool parseKV(const std::string& tok, const std::string& key, std::string& val) {
   if (tok.rfind(key + "=", 0) != 0) return false;
   val = tok.substr(key.size() + 1);
   return true;
+}
+
+// the round-two constructor letters as object histories
+static std::string legacyLife(char letter, long B) {
+  std::string b = std::to_string(B);
+  switch (letter) {
+    case 'm': return "N0mr" + b;
+    case 'M': return "N0Mr";
+    case 'i': return "N0ir" + b;
+    case 'I': return "N0Ir";
+    case 'c': return "N1mr" + b + ".C01.D1";
+    case 'a': return "N1mr" + b + ".N0md" + std::to_string(B + 3) + ".A00.A01.D1";
+    default: return "";
+  }
+}
+
+static bool parseNumber(const std::string& s, long& v) {
+  if (s.empty() || s.size() > 7) return false;
+  v = 0;
+  for (char ch : s) {
+    if (ch < '0' || ch > '9') return false;
+    v = v * 10 + (ch - '0');
+  }
+  return true;
+}
+
+// one step of the value semantics; false (with why) when the statement is not applicable
+static bool lifeStep(const Case& c, std::vector<SlotCfg>& sl, const Stmt& st, size_t& callsDone, std::string& why) {
+  auto alive = [&](int s) { return s >= 0 && s < 10 && sl[s].alive; };
+  switch (st.op) {
+    case 'N':
+      if (alive(st.s)) { why = "N into a used slot"; return false; }
+      sl[st.s].alive = true;
+      sl[st.s].B = (st.kind == 'M' || st.kind == 'I') ? c.defaultBuffer() : st.b;
+      sl[st.s].map = st.map;
+      return true;
+    case 'C':
+      if (alive(st.s) || !alive(st.t)) { why = "C"; return false; }
+      sl[st.s] = sl[st.t];
+      return true;
+    case 'A':
+      if (!alive(st.s) || !alive(st.t)) { why = "A"; return false; }
+      sl[st.s] = sl[st.t];
+      return true;
+    case 'D':
+      if (!alive(st.s)) { why = "D"; return false; }
+      sl[st.s] = SlotCfg();
+      return true;
+    case 'U':
+      if (!alive(st.s)) { why = "U"; return false; }
+      return true;
+    case 'X':
+      if (!alive(st.s) || sl[st.s].map != 'r' || sl[st.s].B < c.B) { why = "X on a slot without the case's map or with a buffer < B"; return false; }
+      if (callsDone >= c.dirs.size()) { why = "more X statements than calls"; return false; }
+      ++callsDone;
+      return true;
+    default: why = "statement"; return false;
+  }
+}
+
+static void parseLife(Case& c) {
+  std::string prog = c.ctor;
+  if (prog.size() == 1) {
+    prog = legacyLife(prog[0], c.B);
+    if (prog.empty()) { c.err = "ctor"; return; }
+  }
+  auto toks = split(prog, '.');
+  if (toks.size() > 40) { c.err = "life too long"; return; }
+  for (size_t k = 0; k < toks.size(); ++k) {
+    const std::string& t = toks[k];
+    Stmt st;
+    if (t.size() < 2) { c.err = "life statement"; return; }
+    st.op = t[0];
+    auto slot = [&](char ch, int& out) { if (ch < '0' || ch > '9') return false; out = ch - '0'; return true; };
+    if (st.op == 'K') {
+      long n;
+      if (k != 0 || !parseNumber(t.substr(1), n) || n < 1) { c.err = "K"; return; }
+      c.K = n;
+      continue;
+    } else if (st.op == 'N') {
+      if (t.size() < 4 || !slot(t[1], st.s)) { c.err = "N"; return; }
+      st.kind = t[2];
+      st.map = t[3];
+      if (std::string("mMiI").find(st.kind) == std::string::npos || (st.map != 'r' && st.map != 'd')) { c.err = "N kind/map"; return; }
+      bool sized = st.kind == 'm' || st.kind == 'i';
+      if (sized) { if (!parseNumber(t.substr(4), st.b) || st.b < 1) { c.err = "N size"; return; } }
+      else if (t.size() != 4) { c.err = "N default with size"; return; }
+    } else if (st.op == 'C' || st.op == 'A') {
+      if (t.size() != 3 || !slot(t[1], st.s) || !slot(t[2], st.t)) { c.err = "C/A"; return; }
+    } else if (st.op == 'D' || st.op == 'U' || st.op == 'X') {
+      if (t.size() != 2 || !slot(t[1], st.s)) { c.err = "D/U/X"; return; }
+    } else { c.err = "life statement"; return; }
+    c.life.push_back(st);
+  }
+  // validity under the value semantics; the calls no X statement placed go to slot 0 at the end
+  std::vector<SlotCfg> sl(10);
+  size_t callsDone = 0;
+  std::string why;
+  for (auto& st : c.life)
+    if (!lifeStep(c, sl, st, callsDone, why)) { c.err = "life: " + why; return; }
+  while (callsDone < c.dirs.size()) {
+    Stmt st;
+    st.op = 'X';
+    st.s = 0;
+    if (!lifeStep(c, sl, st, callsDone, why)) { c.err = "life: " + why; return; }
+    c.life.push_back(st);
+  }
 }
 
 static Case parseCase(const std::string& line) {
@@ -131,18 +288,24 @@ static Case parseCase(const std::string& line) {
     c.fixed = v == "f";
     if (!parseKV(hw[4], "f", v)) { c.err = "f"; return c; }
     c.f = std::stol(v);
-    if (!parseKV(hw[5], "ty", v) || v.size() != 1 || std::string("lpctvn").find(v[0]) == std::string::npos) { c.err = "ty"; return c; }
+    if (!parseKV(hw[5], "ty", v) || v.size() != 1 || std::string(c06::allTypeLetters).find(v[0]) == std::string::npos) { c.err = "ty"; return c; }
     c.ty = v[0];
     if (!parseKV(hw[6], "dirs", v) || v.empty()) { c.err = "dirs"; return c; }
     c.dirs = v;
     for (char d : c.dirs) if (d != 'f' && d != 'b' && d != 'F' && d != 'B') { c.err = "dirs"; return c; }
     if (hw.size() == 8) {
-      if (!parseKV(hw[7], "ctor", v) || v.size() != 1 || std::string("mMiIca").find(v[0]) == std::string::npos) { c.err = "ctor"; return c; }
-      c.ctor = v[0];
+      if (!parseKV(hw[7], "ctor", v) || v.empty()) { c.err = "ctor"; return c; }
+      c.ctor = v;
     }
-    if (c.P < 1 || c.P > 64 || c.B < 1 || c.f < 1 || c.f > c.B) { c.err = "range"; return c; }
-    if ((c.ctor == 'M' || c.ctor == 'I') && c.B != 32768) { c.err = "default buffer size is 32768"; return c; }
-    c.first.resize(c.P); c.second.resize(c.P); c.present.resize(c.P); c.sizes.resize(c.P);
+    if (c.P < 1 || c.P > 62 || c.B < 1 || c.B > 1000000 || c.f < 1 || c.f > c.B) { c.err = "range"; return c; }
+    parseLife(c);
+    if (!c.err.empty()) return c;
+    c.real.resize(c.P); c.decoy.resize(c.P); c.sizes.resize(c.P);
+    for (int p = 0; p < c.P; ++p) {
+      c.decoy.present[p].insert(p);
+      c.decoy.first[p][p] = {0};
+      c.decoy.second[p][p] = {0};
+    }
     c.fixedOf.assign(c.P, c.f);
     for (auto& seg : split(body, ';')) {
       auto w = words(seg);
@@ -153,10 +316,10 @@ static Case parseCase(const std::string& line) {
         if (p < 0 || q < 0 || p >= c.P || q >= c.P || a.size() != b.size()) { c.err = "E"; return c; }
         for (long x : a) if (x < 0 || x >= 4096) { c.err = "E index"; return c; }
         for (long x : b) if (x < 0 || x >= 4096) { c.err = "E index"; return c; }
-        c.present[p].insert(q); c.present[q].insert(p);
-        auto& fl = c.first[p][q];
+        c.real.present[p].insert(q); c.real.present[q].insert(p);
+        auto& fl = c.real.first[p][q];
         fl.insert(fl.end(), a.begin(), a.end());
-        auto& sl = c.second[q][p];
+        auto& sl = c.real.second[q][p];
         sl.insert(sl.end(), b.begin(), b.end());
       } else if (w[0] == "S" && w.size() == 3) {
         int p = std::stoi(w[1]);
@@ -175,128 +338,28 @@ static Case parseCase(const std::string& line) {
   return c;
 }
 
-// the list rank p gathers from / scatters to when talking to q in direction d
+// the list rank p gathers from / scatters to when talking to q
 static const std::vector<long>& listOf(const std::vector<std::map<int, std::vector<long>>>& m, int p, int q) {
   static const std::vector<long> empty;
   auto it = m[p].find(q);
   return it == m[p].end() ? empty : it->second;
 }
-static const std::vector<long>& sendList(const Case& c, char d, int p, int q) { return listOf(Case::forwardCall(d) ? c.first : c.second, p, q); }
-static const std::vector<long>& recvList(const Case& c, char d, int p, int q) { return listOf(Case::forwardCall(d) ? c.second : c.first, p, q); }
-
-// ---------------------------------------------------------------------------------------------------------------
-// recording data handles
-// ---------------------------------------------------------------------------------------------------------------
-struct PodItem {  // goes through the generic MPITraits<T> (sizeof(T) bytes)
-  long v;
-  short tag;
-};
-typedef std::pair<char, double> PairItem;                     // MPITraits<std::pair<T1,T2>> with padding between the members
-typedef std::pair<double, char> TailItem;                     // … with padding behind the members (needs the resized extent)
-typedef Dune::FieldVector<double, 3> FvItem;                  // MPITraits<FieldVector<K,n>>
-typedef std::pair<int, std::pair<short, double>> NestedItem;  // a pair type built from another pair type
-
-template <class T> struct ItemCodec;
-template <> struct ItemCodec<long> {
-  static long make(long v) { return v; }
-  static long value(const long& x, bool&) { return x; }
-};
-template <> struct ItemCodec<PodItem> {
-  static PodItem make(long v) { PodItem p; std::memset(&p, 0, sizeof p); p.v = v; p.tag = (short)(v % 31991); return p; }
-  static long value(const PodItem& x, bool& damaged) { if (x.tag != (short)(x.v % 31991)) damaged = true; return x.v; }
-};
-template <> struct ItemCodec<PairItem> {
-  static PairItem make(long v) { return PairItem((char)(1 + v % 101), (double)v); }
-  static long value(const PairItem& x, bool& damaged) {
-    long v = (long)x.second;
-    if ((double)v != x.second || x.first != (char)(1 + v % 101)) damaged = true;
-    return v;
-  }
-};
-template <> struct ItemCodec<TailItem> {
-  static TailItem make(long v) { return TailItem((double)v, (char)(1 + v % 101)); }
-  static long value(const TailItem& x, bool& damaged) {
-    long v = (long)x.first;
-    if ((double)v != x.first || x.second != (char)(1 + v % 101)) damaged = true;
-    return v;
-  }
-};
-template <> struct ItemCodec<FvItem> {
-  static FvItem make(long v) { FvItem x; x[0] = (double)v; x[1] = (double)(v % 977) + 0.5; x[2] = -(double)v; return x; }
-  static long value(const FvItem& x, bool& damaged) {
-    long v = (long)x[0];
-    if ((double)v != x[0] || x[1] != (double)(v % 977) + 0.5 || x[2] != -(double)v) damaged = true;
-    return v;
-  }
-};
-template <> struct ItemCodec<NestedItem> {
-  static NestedItem make(long v) { return NestedItem((int)(v % 1000003), std::make_pair((short)(v % 31991), (double)v)); }
-  static long value(const NestedItem& x, bool& damaged) {
-    long v = (long)x.second.second;
-    if ((double)v != x.second.second || x.first != (int)(v % 1000003) || x.second.first != (short)(v % 31991)) damaged = true;
-    return v;
-  }
-};
-
-struct ScatterCall {
-  long index, n;
-  std::vector<long> items;
-};
-
-template <class T>
-struct RecHandle {
-  typedef T DataType;
-  const Case& c;
-  int rank;
-  bool fixed;
-  std::vector<long> gathered;        // indices in call order
-  std::vector<ScatterCall> scattered;
-  bool damaged = false;
-  std::string problem;
-
-  RecHandle(const Case& cc, int r, bool fx) : c(cc), rank(r), fixed(fx) {}
-  bool fixedSize() { return fixed; }
-  std::size_t size(std::size_t i) { return (std::size_t)c.sizeOf(fixed, rank, (long)i); }
-  template <class B> void gather(B& buf, std::size_t i) {
-    gathered.push_back((long)i);
-    long n = c.sizeOf(fixed, rank, (long)i);
-    for (long j = 0; j < n; ++j) buf.write(ItemCodec<T>::make(itemValue(rank, (long)i, j)));
-  }
-  template <class B> void scatter(B& buf, std::size_t i, std::size_t n) {
-    ScatterCall sc;
-    sc.index = (long)i;
-    sc.n = (long)n;
-    if ((long)n > c.B) {
-      if (problem.empty()) problem = "scatter was told a count of " + std::to_string(n) + " > buffer size for index " + std::to_string(i);
-      n = (std::size_t)c.B;
-    }
-    for (std::size_t k = 0; k < n; ++k) {
-      T x;
-      buf.read(x);
-      sc.items.push_back(ItemCodec<T>::value(x, damaged));
-    }
-    scattered.push_back(sc);
-  }
-};
+static const std::vector<long>& sendList(const View& v, bool fwd, int p, int q) { return listOf(fwd ? v.first : v.second, p, q); }
+static const std::vector<long>& recvList(const View& v, bool fwd, int p, int q) { return listOf(fwd ? v.second : v.first, p, q); }
 
 // ---------------------------------------------------------------------------------------------------------------
 // executor
 // ---------------------------------------------------------------------------------------------------------------
-static std::string itemsStr(const std::vector<long>& v) { return listStr(v); }
-
-typedef Dune::VariableSizeCommunicator<> VSC;
-typedef VSC::InterfaceMap IMap;
-
 struct OpenInterface : public Dune::Interface {  // the map of an Interface is filled by its builder; here: directly
   explicit OpenInterface(MPI_Comm comm) : Dune::Interface(comm) {}
   using Dune::Interface::interfaces;
 };
 
-static void fillMap(const Case& c, int me, IMap& imap) {
-  for (int q : c.present[me]) {
+static void fillMap(const View& v, int me, IMap& imap) {
+  for (int q : v.present[me]) {
     Dune::InterfaceInformation a, b;
-    const auto& fl = listOf(c.first, me, q);
-    const auto& sl = listOf(c.second, me, q);
+    const auto& fl = listOf(v.first, me, q);
+    const auto& sl = listOf(v.second, me, q);
     a.reserve(fl.size());
     for (long x : fl) a.add((std::size_t)x);
     b.reserve(sl.size());
@@ -305,173 +368,196 @@ static void fillMap(const Case& c, int me, IMap& imap) {
   }
 }
 
-// the object under test, made the way the op line says (all of it is collective: MPI_Comm_dup / MPI_Comm_free)
-struct Subject {
-  IMap imap, other;                          // `other`: a different map for the object that gets assigned over
-  std::unique_ptr<OpenInterface> iface;
-  std::unique_ptr<VSC> comm;
-  Subject(const Case& c, int me) {
-    std::size_t B = (std::size_t)c.B;
-    switch (c.ctor) {
-      case 'm': fillMap(c, me, imap); comm.reset(new VSC(MPI_COMM_WORLD, imap, B)); break;
-      case 'M': fillMap(c, me, imap); comm.reset(new VSC(MPI_COMM_WORLD, imap)); break;
-      case 'i': iface.reset(new OpenInterface(MPI_COMM_WORLD)); fillMap(c, me, iface->interfaces()); comm.reset(new VSC(*iface, B)); break;
-      case 'I': iface.reset(new OpenInterface(MPI_COMM_WORLD)); fillMap(c, me, iface->interfaces()); comm.reset(new VSC(*iface)); break;
-      case 'c': {
-        fillMap(c, me, imap);
-        std::unique_ptr<VSC> orig(new VSC(MPI_COMM_WORLD, imap, B));
-        comm.reset(new VSC(*orig));
-        orig.reset();  // the copy has to live on its own duplicated communicator
-        break;
+// one forward()/backward() on `comm`, which is supposed to work on the interface map `view`: canonical form of what was
+// scattered (appended to *out if given) and the oracles; returns the first complaint ("" = none)
+static std::string checkedCall(CommApi& comm, const View& view, bool fwd, bool fx, char ty, long cap, long bufferOfObject,
+                               const std::function<long(int, long)>& sz, const std::string& what, std::string* out,
+                               bool& nontrivial) {
+  const int me = g_rank;
+  std::string fail;
+  Recorder h;
+  h.rank = me;
+  h.fixed = fx;
+  h.cap = cap;
+  h.sizeOf = [&](long i) { return sz(me, i); };
+  g_sends.clear(); g_recvs.clear();
+  g_maxMsgItems = 0;
+  g_counting = true;
+  bool built = comm.communicate(ty, fwd, h);
+  g_counting = false;
+  if (!built) return "harness: item type '" + std::string(1, ty) + "' is not built for this configuration";
+
+  // ---- canonical form: scatter calls with data, grouped by the rank the data came from ----
+  std::map<int, std::vector<const ScatterCall*>> bySrc;
+  for (auto& sc : h.scattered) {
+    if (sc.n == 0 && sc.items.empty()) {
+      if (me == 0) stat("scatter_calls_with_count_0_on_rank0");
+      // legal only for an index that expects no data from at least one neighbour
+      bool okz = false;
+      for (int q : view.present[me]) {
+        const auto& rl = recvList(view, fwd, me, q);
+        const auto& sl = sendList(view, fwd, q, me);
+        for (size_t k = 0; k < rl.size() && k < sl.size(); ++k)
+          if (rl[k] == sc.index && sz(q, sl[k]) == 0) okz = true;
       }
-      default: {  // 'a'
-        fillMap(c, me, imap);
-        Dune::InterfaceInformation a, b;
-        a.reserve(1); a.add(0); b.reserve(1); b.add(0);
-        other[me] = std::make_pair(a, b);  // self interface only: usable, but not what the case describes
-        std::unique_ptr<VSC> orig(new VSC(MPI_COMM_WORLD, imap, B));
-        comm.reset(new VSC(MPI_COMM_WORLD, other, B + 3));
-        VSC& self = *comm;
-        *comm = self;   // self-assignment keeps everything
-        *comm = *orig;  // now it has to behave like `orig` …
-        orig.reset();   // … without depending on it
-        break;
+      if (!okz && fail.empty()) fail = "scatter(index " + std::to_string(sc.index) + ", count 0) although no zero-size item is addressed to that index";
+      continue;
+    }
+    int src = sc.items.empty() ? -1 : itemSource(sc.items[0]);
+    for (long v : sc.items)
+      if (itemSource(v) != src && fail.empty()) fail = "one scatter call mixes items of different senders (index " + std::to_string(sc.index) + ")";
+    bySrc[src].push_back(&sc);
+  }
+  if (out) {
+    bool firstq = true;
+    std::set<int> keys(view.present[me].begin(), view.present[me].end());
+    for (auto& kv : bySrc) keys.insert(kv.first);
+    for (int q : keys) {
+      if (!firstq) *out += " ";
+      firstq = false;
+      *out += (view.present[me].count(q) ? "" : "?") + std::to_string(q) + ":(";
+      bool fc = true;
+      for (auto* sc : bySrc[q]) {
+        if (!fc) *out += ",";
+        fc = false;
+        *out += std::to_string(sc->index) + ":" + listStr(sc->items);
       }
+      *out += ")";
     }
   }
-  ~Subject() {
-    comm.reset();
-    iface.reset();  // frees its InterfaceInformation objects itself
-    for (auto& kv : imap) { kv.second.first.free(); kv.second.second.free(); }
-    for (auto& kv : other) { kv.second.first.free(); kv.second.second.free(); }
-  }
-};
 
-template <class T>
-static Result runCase(const Case& c) {
+  // ---- oracle: delivery ----
+  if (!h.problem.empty() && fail.empty()) fail = h.problem;
+  if (h.damaged && fail.empty()) fail = "an item arrived damaged (payload check of the item type '" + std::string(1, ty) + "' failed)";
+  for (auto& kv : bySrc)
+    if (!view.present[me].count(kv.first) && fail.empty())
+      fail = "data attributed to rank " + std::to_string(kv.first) + " which is no neighbour";
+  for (int q : view.present[me]) {
+    const auto& rl = recvList(view, fwd, me, q);
+    const auto& sl = sendList(view, fwd, q, me);
+    if (!rl.empty()) nontrivial = true;
+    if (!sendList(view, fwd, me, q).empty()) nontrivial = true;
+    std::vector<std::pair<long, std::vector<long>>> expect;
+    for (size_t k = 0; k < rl.size(); ++k) {
+      long n = sz(q, sl[k]);
+      if (n == 0) continue;
+      std::vector<long> it;
+      for (long j = 0; j < n; ++j) it.push_back(itemValue(q, sl[k], j));
+      expect.push_back({rl[k], it});
+    }
+    const auto& got = bySrc[q];
+    for (size_t k = 0; k < std::max(expect.size(), got.size()) && fail.empty(); ++k) {
+      std::string where = what + ", from rank " + std::to_string(q) + ", data-carrying receive #" + std::to_string(k);
+      if (k >= got.size()) fail = where + ": items " + listStr(expect[k].second) + " for index " + std::to_string(expect[k].first) + " were never scattered (lost)";
+      else if (k >= expect.size()) fail = where + ": unexpected extra scatter(index " + std::to_string(got[k]->index) + ", " + listStr(got[k]->items) + ") (duplicated or invented)";
+      else if (got[k]->index != expect[k].first) fail = where + ": scattered to index " + std::to_string(got[k]->index) + " instead of " + std::to_string(expect[k].first);
+      else if (got[k]->n != (long)expect[k].second.size()) fail = where + ": receiver was told count " + std::to_string(got[k]->n) + " instead of " + std::to_string(expect[k].second.size());
+      else if (got[k]->items != expect[k].second) fail = where + ": items " + listStr(got[k]->items) + " instead of " + listStr(expect[k].second);
+    }
+  }
+  // ---- oracle: every send index gathered exactly once per occurrence ----
+  std::map<long, long> want, have;
+  for (int q : view.present[me]) for (long x : sendList(view, fwd, me, q)) ++want[x];
+  for (long x : h.gathered) ++have[x];
+  if (want != have && fail.empty()) {
+    for (auto& kv : want) if (have[kv.first] != kv.second && fail.empty())
+      fail = what + ": gather(index " + std::to_string(kv.first) + ") called " + std::to_string(have[kv.first]) + " times, expected " + std::to_string(kv.second);
+    for (auto& kv : have) if (!want.count(kv.first) && fail.empty())
+      fail = what + ": gather called for index " + std::to_string(kv.first) + " which is in no send list";
+  }
+  // ---- oracle: balance of the point-to-point operations of this call (all ranks have returned when the exchange
+  //      below completes): a receive posted for a message that is never sent is a request leaked into freed buffers,
+  //      a message for which no receive was posted is lost ----
+  // (tags: 933399 data and sizes of variable-size handles, 933881 the scalar size of fixed-size handles, anything else)
+  auto bucket = [](int tag) { return tag == 933399 ? 0 : tag == 933881 ? 1 : 2; };
+  static const char* bucketName[3] = {"tag 933399", "tag 933881", "another tag"};
+  long recvTotal = 0;
+  for (auto& kv : g_recvs) recvTotal += kv.second;
+  for (int bk = 0; bk < 3; ++bk) {
+    std::vector<long> sentTo(g_size, 0), sentToMe(g_size, 0), postedFor(g_size, 0);
+    for (auto& kv : g_sends) if (bucket(kv.first.second) == bk && kv.first.first >= 0 && kv.first.first < g_size) sentTo[kv.first.first] += kv.second;
+    for (auto& kv : g_recvs) if (bucket(kv.first.second) == bk && kv.first.first >= 0 && kv.first.first < g_size) postedFor[kv.first.first] += kv.second;
+    MPI_Alltoall(sentTo.data(), 1, MPI_LONG, sentToMe.data(), 1, MPI_LONG, MPI_COMM_WORLD);
+    for (int q = 0; q < g_size; ++q) {
+      if (me == 0 && bk == 0 && sentTo[q] > 0 && out)
+        stat(sentTo[q] == 1 ? "msgs_to_a_neighbour_1" : sentTo[q] <= 3 ? "msgs_to_a_neighbour_2_3" : "msgs_to_a_neighbour_4plus");
+      std::string where = what + ", " + bucketName[bk] + ": ";
+      if (postedFor[q] > sentToMe[q] && fail.empty())
+        fail = where + std::to_string(postedFor[q]) + " receives posted for rank " + std::to_string(q) + " but only " + std::to_string(sentToMe[q]) + " messages were sent: a receive request is still pending after the call returned";
+      if (postedFor[q] < sentToMe[q] && recvTotal > 0 && fail.empty())
+        fail = where + "rank " + std::to_string(q) + " sent " + std::to_string(sentToMe[q]) + " messages but only " + std::to_string(postedFor[q]) + " receives were posted for it";
+    }
+  }
+  // a message longer than the configured buffer is not a delivery failure (a communicator that silently works with a
+  // bigger buffer still delivers everything), so it is only counted; an overrun of the real buffer is ASan's business
+  if (g_maxMsgItems > bufferOfObject && me == 0) stat("calls_with_a_message_longer_than_the_configured_buffer");
+  g_maxMsgItems = 0;
+  return fail;
+}
+
+static Result runCase(const Case& c, const Family& fam) {
   const int me = g_rank;
   Result res;
   std::string out, fail;
   bool nontrivial = false;
   {
-    Subject subj(c, me);
-    VSC& comm = *subj.comm;
-    for (size_t ci = 0; ci < c.dirs.size(); ++ci) {
-      char d = c.dirs[ci];
-      const bool fx = c.fixedCall(d);
-      RecHandle<T> h(c, me, fx);
-      g_sends.clear(); g_recvs.clear();
-      g_counting = true;
-      if (Case::forwardCall(d)) comm.forward(h);
-      else comm.backward(h);
-      g_counting = false;
-
-      // ---- canonical form: scatter calls with data, grouped by the rank the data came from ----
-      std::map<int, std::vector<const ScatterCall*>> bySrc;
-      for (auto& sc : h.scattered) {
-        if (sc.n == 0 && sc.items.empty()) {
-          if (me == 0) stat("scatter_calls_with_count_0_on_rank0");
-          // legal only for an index that expects no data from at least one neighbour
-          bool okz = false;
-          for (int q : c.present[me]) {
-            const auto& rl = recvList(c, d, me, q);
-            const auto& sl = sendList(c, d, q, me);
-            for (size_t k = 0; k < rl.size() && k < sl.size(); ++k)
-              if (rl[k] == sc.index && c.sizeOf(fx, q, sl[k]) == 0) okz = true;
+    IMap realMap, decoyMap;
+    fillMap(c.real, me, realMap);
+    fillMap(c.decoy, me, decoyMap);
+    std::vector<std::unique_ptr<OpenInterface>> ifaces;  // the maps have to outlive every object pointing to them
+    std::unique_ptr<CommApi> slot[10];
+    std::vector<SlotCfg> cfg(10);
+    size_t ci = 0;
+    for (const Stmt& st : c.life) {
+      std::string why;
+      size_t dummy = ci;
+      lifeStep(c, cfg, st, dummy, why);  // the configuration the objects are supposed to have (valid: checked by parseCase)
+      switch (st.op) {
+        case 'N': {
+          const View& v = st.map == 'r' ? c.real : c.decoy;
+          if (st.kind == 'i' || st.kind == 'I') {
+            ifaces.emplace_back(new OpenInterface(MPI_COMM_WORLD));
+            fillMap(v, me, ifaces.back()->interfaces());
+            slot[st.s].reset(fam.make(st.kind == 'i' ? CtorKind::interfaceSize : CtorKind::interface, MPI_COMM_WORLD, nullptr,
+                                      ifaces.back().get(), (std::size_t)st.b));
+          } else {
+            slot[st.s].reset(fam.make(st.kind == 'm' ? CtorKind::commMapSize : CtorKind::commMap, MPI_COMM_WORLD,
+                                      st.map == 'r' ? &realMap : &decoyMap, nullptr, (std::size_t)st.b));
           }
-          if (!okz && fail.empty()) fail = "scatter(index " + std::to_string(sc.index) + ", count 0) although no zero-size item is addressed to that index";
-          continue;
+          break;
         }
-        int src = sc.items.empty() ? -1 : itemSource(sc.items[0]);
-        for (long v : sc.items)
-          if (itemSource(v) != src && fail.empty()) fail = "one scatter call mixes items of different senders (index " + std::to_string(sc.index) + ")";
-        bySrc[src].push_back(&sc);
-      }
-      if (ci) out += " | ";
-      bool firstq = true;
-      std::set<int> keys(c.present[me].begin(), c.present[me].end());
-      for (auto& kv : bySrc) keys.insert(kv.first);
-      for (int q : keys) {
-        if (!firstq) out += " ";
-        firstq = false;
-        out += (c.present[me].count(q) ? "" : "?") + std::to_string(q) + ":(";
-        bool fc = true;
-        for (auto* sc : bySrc[q]) {
-          if (!fc) out += ",";
-          fc = false;
-          out += std::to_string(sc->index) + ":" + itemsStr(sc->items);
+        case 'C': slot[st.s].reset(slot[st.t]->clone()); break;
+        case 'A': slot[st.s]->assign(*slot[st.t]); break;
+        case 'D': slot[st.s].reset(); break;
+        case 'U': {
+          // the object has to be usable whatever happened to the objects it was copied from / assigned to
+          const View& v = cfg[st.s].map == 'r' ? c.real : c.decoy;
+          for (int dir = 0; dir < 2; ++dir) {
+            std::string f2 = checkedCall(*slot[st.s], v, dir == 0, true, 'l', 1, cfg[st.s].B, [](int, long) { return 1L; },
+                                         "probe of slot " + std::to_string(st.s) + (dir == 0 ? " forward" : " backward"), nullptr, nontrivial);
+            if (fail.empty()) fail = f2;
+          }
+          break;
         }
-        out += ")";
-      }
-
-      // ---- oracle: delivery ----
-      if (!h.problem.empty() && fail.empty()) fail = h.problem;
-      if (h.damaged && fail.empty()) fail = "an item arrived damaged (payload check of the item type '" + std::string(1, c.ty) + "' failed)";
-      for (auto& kv : bySrc)
-        if (!c.present[me].count(kv.first) && fail.empty())
-          fail = "data attributed to rank " + std::to_string(kv.first) + " which is no neighbour";
-      for (int q : c.present[me]) {
-        const auto& rl = recvList(c, d, me, q);
-        const auto& sl = sendList(c, d, q, me);
-        if (!rl.empty()) nontrivial = true;
-        if (!sendList(c, d, me, q).empty()) nontrivial = true;
-        std::vector<std::pair<long, std::vector<long>>> expect;
-        for (size_t k = 0; k < rl.size(); ++k) {
-          long n = c.sizeOf(fx, q, sl[k]);
-          if (n == 0) continue;
-          std::vector<long> it;
-          for (long j = 0; j < n; ++j) it.push_back(itemValue(q, sl[k], j));
-          expect.push_back({rl[k], it});
+        case 'X': {
+          char d = c.dirs[ci];
+          const bool fx = c.fixedCall(d);
+          if (ci) out += " | ";
+          std::string f2 = checkedCall(*slot[st.s], c.real, Case::forwardCall(d), fx, c.ty, c.B, cfg[st.s].B,
+                                       [&](int p, long i) { return c.sizeOf(fx, p, i); },
+                                       "call " + std::to_string(ci) + " dir " + std::string(1, d) + " on slot " + std::to_string(st.s), &out, nontrivial);
+          if (fail.empty()) fail = f2;
+          ++ci;
+          break;
         }
-        const auto& got = bySrc[q];
-        for (size_t k = 0; k < std::max(expect.size(), got.size()) && fail.empty(); ++k) {
-          std::string where = "call " + std::to_string(ci) + " dir " + std::string(1, d) + ", from rank " + std::to_string(q) + ", data-carrying receive #" + std::to_string(k);
-          if (k >= got.size()) fail = where + ": items " + itemsStr(expect[k].second) + " for index " + std::to_string(expect[k].first) + " were never scattered (lost)";
-          else if (k >= expect.size()) fail = where + ": unexpected extra scatter(index " + std::to_string(got[k]->index) + ", " + itemsStr(got[k]->items) + ") (duplicated or invented)";
-          else if (got[k]->index != expect[k].first) fail = where + ": scattered to index " + std::to_string(got[k]->index) + " instead of " + std::to_string(expect[k].first);
-          else if (got[k]->n != (long)expect[k].second.size()) fail = where + ": receiver was told count " + std::to_string(got[k]->n) + " instead of " + std::to_string(expect[k].second.size());
-          else if (got[k]->items != expect[k].second) fail = where + ": items " + itemsStr(got[k]->items) + " instead of " + itemsStr(expect[k].second);
-        }
+        default: break;
       }
-      // ---- oracle: every send index gathered exactly once per occurrence ----
-      std::map<long, long> want, have;
-      for (int q : c.present[me]) for (long x : sendList(c, d, me, q)) ++want[x];
-      for (long x : h.gathered) ++have[x];
-      if (want != have && fail.empty()) {
-        for (auto& kv : want) if (have[kv.first] != kv.second && fail.empty())
-          fail = "dir " + std::string(1, d) + ": gather(index " + std::to_string(kv.first) + ") called " + std::to_string(have[kv.first]) + " times, expected " + std::to_string(kv.second);
-        for (auto& kv : have) if (!want.count(kv.first) && fail.empty())
-          fail = "dir " + std::string(1, d) + ": gather called for index " + std::to_string(kv.first) + " which is in no send list";
-      }
-      // ---- oracle: balance of the point-to-point operations of this call (all ranks have returned when the exchange
-      //      below completes): a receive posted for a message that is never sent is a request leaked into freed buffers,
-      //      a message for which no receive was posted is lost ----
-      // (tags: 933399 data and sizes of variable-size handles, 933881 the scalar size of fixed-size handles, anything else)
-      auto bucket = [](int tag) { return tag == 933399 ? 0 : tag == 933881 ? 1 : 2; };
-      static const char* bucketName[3] = {"tag 933399", "tag 933881", "another tag"};
-      long recvTotal = 0;
-      for (auto& kv : g_recvs) recvTotal += kv.second;
-      for (int bk = 0; bk < 3; ++bk) {
-        std::vector<long> sentTo(g_size, 0), sentToMe(g_size, 0), postedFor(g_size, 0);
-        for (auto& kv : g_sends) if (bucket(kv.first.second) == bk && kv.first.first >= 0 && kv.first.first < g_size) sentTo[kv.first.first] += kv.second;
-        for (auto& kv : g_recvs) if (bucket(kv.first.second) == bk && kv.first.first >= 0 && kv.first.first < g_size) postedFor[kv.first.first] += kv.second;
-        MPI_Alltoall(sentTo.data(), 1, MPI_LONG, sentToMe.data(), 1, MPI_LONG, MPI_COMM_WORLD);
-        for (int q = 0; q < g_size; ++q) {
-          if (me == 0 && bk == 0 && sentTo[q] > 0)
-            stat(sentTo[q] == 1 ? "msgs_to_a_neighbour_1" : sentTo[q] <= 3 ? "msgs_to_a_neighbour_2_3" : "msgs_to_a_neighbour_4plus");
-          std::string where = "call " + std::to_string(ci) + " dir " + std::string(1, d) + ", " + bucketName[bk] + ": ";
-          if (postedFor[q] > sentToMe[q] && fail.empty())
-            fail = where + std::to_string(postedFor[q]) + " receives posted for rank " + std::to_string(q) + " but only " + std::to_string(sentToMe[q]) + " messages were sent: a receive request is still pending after the call returned";
-          if (postedFor[q] < sentToMe[q] && recvTotal > 0 && fail.empty())
-            fail = where + "rank " + std::to_string(q) + " sent " + std::to_string(sentToMe[q]) + " messages but only " + std::to_string(postedFor[q]) + " receives were posted for it";
-        }
-      }
-      // a message longer than the configured buffer is not a delivery failure (a communicator that silently works with a
-      // bigger buffer still delivers everything), so it is only counted; an overrun of the real buffer is ASan's business
-      if (g_maxMsgItems > c.B && me == 0) stat("calls_with_a_message_longer_than_the_configured_buffer");
-      g_maxMsgItems = 0;
     }
-  }  // communicator freed here (collective MPI_Comm_free)
+    for (auto& s : slot) s.reset();  // collective MPI_Comm_free, slot order
+    ifaces.clear();                  // an Interface frees its InterfaceInformation objects itself
+    for (auto& kv : realMap) { kv.second.first.free(); kv.second.second.free(); }
+    for (auto& kv : decoyMap) { kv.second.first.free(); kv.second.second.free(); }
+  }
   res.impl = out;
   res.oracle = !fail.empty() ? "FAIL " + fail : (nontrivial ? "ok" : "ok trivial");
   return res;
@@ -480,7 +566,34 @@ static Result runCase(const Case& c) {
 static void caseStats(const Case& c) {
   stat(c.fixed ? "mode_fixed" : "mode_variable");
   stat(std::string("type_") + std::string(1, c.ty));
-  stat(std::string("ctor_") + std::string(1, c.ctor));
+  if (c.ctor.size() == 1) stat(std::string("ctor_") + c.ctor);
+  else stat("ctor_object_history");
+  if (c.K) stat("cases_with_DUNE_PARALLEL_MAX_COMMUNICATION_BUFFER_SIZE");
+  {
+    std::vector<SlotCfg> sl(10);
+    size_t done = 0;
+    std::string why;
+    for (auto& st : c.life) {
+      if (c.ctor.size() > 1) stat(std::string("life_") + std::string(1, st.op));
+      if (st.op == 'N') {
+        stat(std::string("constructor_") + std::string(1, st.kind) + (c.K ? "_cfg" : ""));
+        long b = (st.kind == 'M' || st.kind == 'I') ? c.defaultBuffer() : st.b;
+        if (st.map == 'r') stat(b < c.B ? "objects_built_with_buffer_lt_B" : b == c.B ? "objects_built_with_buffer_eq_B" : "objects_built_with_buffer_gt_B");
+      }
+      if (st.op == 'A') {
+        if (st.s == st.t) stat("assign_self");
+        else if (sl[st.s].B < sl[st.t].B) stat("assign_over_smaller_buffer");
+        else if (sl[st.s].B > sl[st.t].B) stat("assign_over_bigger_buffer");
+        else stat("assign_over_equal_buffer");
+        if (st.s != st.t && sl[st.s].map != sl[st.t].map) stat("assign_changes_map");
+      }
+      if (st.op == 'X') {
+        if (st.s != 0) stat("calls_on_slot_other_than_0");
+        if (sl[st.s].B > c.B) stat("calls_on_object_with_buffer_gt_B");
+      }
+      lifeStep(c, sl, st, done, why);
+    }
+  }
   stat("calls_" + std::to_string(c.dirs.size()));
   bool mixed = false;
   for (char d : c.dirs) if (d == 'F' || d == 'B') mixed = true;
@@ -497,10 +610,11 @@ static void caseStats(const Case& c) {
   }
   for (char d : c.dirs) {
     const bool fx = c.fixedCall(d);
-    stat(std::string("call_") + (Case::forwardCall(d) ? "forward_" : "backward_") + (fx ? "fixed" : "variable"));
+    const bool fwd = Case::forwardCall(d);
+    stat(std::string("call_") + (fwd ? "forward_" : "backward_") + (fx ? "fixed" : "variable"));
     for (int p = 0; p < c.P; ++p)
-      for (int q : c.present[p]) {
-        const auto& sl = sendList(c, d, p, q);
+      for (int q : c.real.present[p]) {
+        const auto& sl = sendList(c.real, fwd, p, q);
         stat("directed_interfaces");
         if (p == q) stat("self_interfaces");
         if (sl.empty()) { stat("empty_interfaces"); continue; }
@@ -533,15 +647,22 @@ static Result exec(const std::string& line) {
   Result r;
   if (!c.err.empty()) { r.impl = "bad-op"; r.oracle = "FAIL harness cannot parse the op line (" + c.err + ")"; return r; }
   if (c.P != g_size) { r.impl = "bad-np"; r.oracle = "FAIL op line is for " + std::to_string(c.P) + " processes"; return r; }
-  if (g_rank == 0) caseStats(c);
-  switch (c.ty) {
-    case 'l': return runCase<long>(c);
-    case 'p': return runCase<PodItem>(c);
-    case 'c': return runCase<PairItem>(c);
-    case 't': return runCase<TailItem>(c);
-    case 'v': return runCase<FvItem>(c);
-    default: return runCase<NestedItem>(c);
+  const Family* fam = &mainFamily();
+  if (c.K) {
+    if (c.K != c06::cfgFamilyMacroValue) {
+      r.impl = "bad-op";
+      r.oracle = "FAIL harness: only DUNE_PARALLEL_MAX_COMMUNICATION_BUFFER_SIZE=" + std::to_string(c06::cfgFamilyMacroValue) + " is built";
+      return r;
+    }
+    fam = &c06::cfgFamily();
   }
+  if (std::string(fam->types).find(c.ty) == std::string::npos) {
+    r.impl = "bad-op";
+    r.oracle = "FAIL harness: item type not built for this configuration";
+    return r;
+  }
+  if (g_rank == 0) caseStats(c);
+  return runCase(c, *fam);
 }
 
 // ---------------------------------------------------------------------------------------------------------------
@@ -560,11 +681,97 @@ static std::vector<long> genList(Rng& rng, long len, long nloc) {
   return l;
 }
 
+// a random object history that is valid for (B, dirs): statements are drawn while the supposed configuration of every
+// slot is tracked; at the end slot 0 is made fit for the calls that no X statement placed
+static std::string genLife(Rng& rng, long B, const std::string& dirs, long K) {
+  const long defB = K ? K : 32768;
+  std::vector<SlotCfg> sl(10);
+  std::vector<std::string> prog;
+  if (K) prog.push_back("K" + std::to_string(K));
+  size_t calls = 0;
+  const int nslots = 2 + (int)rng.below(3);  // slots 0..nslots-1
+  auto bufPick = [&]() -> long {
+    std::vector<long> bs = {B, B, B + 3, 1, B - 1, (B + 1) / 2, 2 * B, B + 1, 1 + (long)rng.below(B + 4)};
+    long b;
+    do b = rng.pick(bs); while (b < 1);
+    return b;
+  };
+  auto fit = [&](int s) { return sl[s].alive && sl[s].map == 'r' && sl[s].B >= B; };
+  auto emitN = [&](int s, char map, long b /* 0: default constructor */) {
+    bool iface = rng.coin(2, 5);
+    std::string t = "N" + std::to_string(s);
+    if (b == 0) { t += iface ? "I" : "M"; t += map; sl[s].B = defB; }
+    else { t += iface ? "i" : "m"; t += map; t += std::to_string(b); sl[s].B = b; }
+    sl[s].alive = true;
+    sl[s].map = map;
+    prog.push_back(t);
+  };
+  int steps = 2 + (int)rng.below(8);
+  for (int k = 0; k < steps; ++k) {
+    std::vector<int> alive, empty, fits;
+    for (int s = 0; s < nslots; ++s) {
+      (sl[s].alive ? alive : empty).push_back(s);
+      if (fit(s)) fits.push_back(s);
+    }
+    // weights: N 3, C 2, A 5, D 1, U 1, X 2
+    std::vector<char> menu;
+    if (!empty.empty()) menu.insert(menu.end(), 3, 'N');
+    if (!empty.empty() && !alive.empty()) menu.insert(menu.end(), 2, 'C');
+    if (!alive.empty()) { menu.insert(menu.end(), alive.size() > 1 ? 5 : 1, 'A'); menu.push_back('D'); menu.push_back('U'); }
+    if (!fits.empty() && calls < dirs.size()) menu.insert(menu.end(), 2, 'X');
+    char op = rng.pick(menu);
+    if (op == 'N') {
+      int s = rng.pick(empty);
+      char map = rng.coin(7, 10) ? 'r' : 'd';
+      emitN(s, map, (rng.coin(1, 5) || (K && rng.coin())) ? 0 : bufPick());
+    } else if (op == 'C') {
+      int s = rng.pick(empty), t = rng.pick(alive);
+      sl[s] = sl[t];
+      prog.push_back("C" + std::to_string(s) + std::to_string(t));
+    } else if (op == 'A') {
+      int s = rng.pick(alive), t = rng.pick(alive);
+      if (s == t && !rng.coin(1, 4)) t = rng.pick(alive);
+      sl[s] = sl[t];
+      prog.push_back("A" + std::to_string(s) + std::to_string(t));
+    } else if (op == 'D') {
+      int s = rng.pick(alive);
+      sl[s] = SlotCfg();
+      prog.push_back("D" + std::to_string(s));
+    } else if (op == 'U') {
+      prog.push_back("U" + std::to_string(rng.pick(alive)));
+    } else {
+      prog.push_back("X" + std::to_string(rng.pick(fits)));
+      ++calls;
+    }
+  }
+  if (calls < dirs.size() && !fit(0)) {
+    int src = -1;
+    for (int s = 1; s < nslots; ++s) if (fit(s)) src = s;
+    if (src < 0) {
+      src = -1;
+      for (int s = 1; s < nslots; ++s) if (!sl[s].alive) src = s;
+      if (src < 0) { src = nslots - 1; sl[src] = SlotCfg(); prog.push_back("D" + std::to_string(src)); }
+      long b = 0;
+      if (!(defB >= B && rng.coin(1, 4))) { do b = bufPick(); while (b < B); }
+      emitN(src, 'r', b);
+    }
+    if (sl[0].alive) prog.push_back("A0" + std::to_string(src));
+    else prog.push_back("C0" + std::to_string(src));
+    sl[0] = sl[src];
+    if (rng.coin()) { prog.push_back("D" + std::to_string(src)); sl[src] = SlotCfg(); }
+    else if (rng.coin(1, 3)) prog.push_back("U" + std::to_string(src));
+  }
+  return join(prog.begin(), prog.end(), ".");
+}
+
 static std::string gen(Rng& rng, long, const Args& a) {
   bool thorough = a.tier == "thorough";
   int P = g_size;
   static const std::vector<long> Bs = {1, 1, 2, 2, 3, 3, 4, 5, 7, 8, 16};
   long B = rng.coin(1, 20) ? 32768 : rng.pick(Bs);
+  // the other compile-time configuration: the default constructors take DUNE_PARALLEL_MAX_COMMUNICATION_BUFFER_SIZE
+  const long K = rng.coin(1, 12) ? c06::cfgFamilyMacroValue : 0;
+  if (K) B = 1 + (long)rng.below(K);
   bool big = B > 1000;
   bool fixed = rng.coin(2, 5);
   static const std::vector<std::string> dirsS = {"f", "f", "f", "f", "b", "b", "b", "b", "fb", "bf", "ff", "bb",
@@ -580,11 +787,17 @@ static std::string gen(Rng& rng, long, const Args& a) {
     return f;
   };
   long f = needFixed ? pickF() : 1;
-  static const std::vector<std::string> tys = {"l", "l", "l", "p", "p", "c", "c", "t", "v", "v", "n", "n"};
-  std::string ty = rng.pick(tys);
+  std::string ty;
+  if (K) ty = std::string(1, rng.pick(std::vector<char>{'l', 'l', 'c', 'g'}));
+  else if (rng.coin(3, 5)) { static const std::vector<std::string> tys = {"l", "l", "l", "p", "p", "c", "c", "t", "v", "v", "n", "n"}; ty = rng.pick(tys); }
+  else ty = std::string(1, c06::allTypeLetters[rng.below(std::strlen(c06::allTypeLetters))]);
   std::string ctor = "m";
-  if (big) { if (rng.coin(3, 5)) ctor = rng.coin() ? "M" : "I"; }
-  else if (rng.coin(2, 5)) { static const std::vector<std::string> cs = {"i", "i", "c", "a"}; ctor = rng.pick(cs); }
+  if (K) ctor = genLife(rng, B, dirs, K);
+  else if (big) { if (rng.coin(3, 5)) ctor = rng.coin() ? "M" : "I"; else if (rng.coin(1, 3)) ctor = genLife(rng, B, dirs, 0); }
+  else if (rng.coin(1, 2)) {
+    static const std::vector<std::string> cs = {"i", "c", "a"};
+    ctor = rng.coin(1, 4) ? rng.pick(cs) : genLife(rng, B, dirs, 0);
+  }
   long maxloc = thorough ? 9 : 5, maxlen = thorough ? 14 : 6;
   std::vector<long> nloc(P);
   for (int p = 0; p < P; ++p) nloc[p] = rng.coin(1, 12) ? 0 : 1 + (long)rng.below(maxloc);
